@@ -129,13 +129,19 @@ def ballot_inv(ex, st):
     idx = C.heap_array(st, BALLOT, 'index', 'int')
     rk = C.heap_array(st, BALLOT, 'ranking', 'seq:int')
     b = z3.Int('b!inv')
-    return z3.ForAll([b], z3.Implies(isBallot(b), z3.And(z3.Select(idx, b) >= 0,
-                                                           z3.Select(idx, b) <= seqlen(z3.Select(rk, b)),
-                                                           seqlen(z3.Select(rk, b)) >= 1)))
+    body = [z3.Select(idx, b) >= 0, z3.Select(idx, b) <= seqlen(z3.Select(rk, b)), seqlen(z3.Select(rk, b)) >= 1]
+    caller = ex.cur_func.qualname if ex.cur_func is not None else ''
+    if caller.startswith(('droop.rules.wigm.', 'droop.rules.wigm_prf.', 'droop.rules.cfer.', 'droop.rules.scotland.', 'droop.rules.mpls.')) \
+            and ex.instance != 'guarded':
+        # Gregory family: 0 <= weight <= 1 (every store to .weight in these modules carries the `range` site obligation)
+        w = C.heap_array(st, BALLOT, 'weight', 'val')
+        one = C.const_field(st, 'V1').t
+        body += [z3.Select(w, b) >= 0, z3.Select(w, b) <= one]
+    return z3.ForAll([b], z3.Implies(isBallot(b), z3.And(*body)))
 
 
 def after_havoc(ex, st, keys):
-    if (BALLOT, 'index') in keys:
+    if (BALLOT, 'index') in keys or (BALLOT, 'weight') in keys:
         st.assume(ballot_inv(ex, st))
 
 
@@ -279,6 +285,76 @@ def install_election(ex):
                 ex.col.add('PRE', ['C07'], caller, 'unpend@%d:largest' % ex.C.site_anchor_n(caller, 'unpend-largest', line),
                            'the surplus transferred first is a largest one',
                            C.assumptions(st), z3.ForAll([y], z3.Implies(pend(y), z3.Select(varr, me.t) >= z3.Select(varr, y))))
+
+    WIGM_MODULES = ('droop.rules.wigm.', 'droop.rules.wigm_prf.', 'droop.rules.cfer.', 'droop.rules.scotland.', 'droop.rules.mpls.')
+    _parents = {}
+
+    def parent_map(func):
+        pm = _parents.get(func.qualname)
+        if pm is None:
+            pm = {}
+            for n in ast.walk(func.node):
+                for c in ast.iter_child_nodes(n):
+                    pm[id(c)] = n
+            _parents[func.qualname] = pm
+        return pm
+
+    def enclosing_surplus_sweep(fr, node):
+        "the candidate expression X of the nearest enclosing `for b in (b for b in E.ballots if b.topRank == X.cid)`"
+        if fr.func is None:
+            return None
+        pm = parent_map(fr.func)
+        n = pm.get(id(node))
+        while n is not None:
+            if isinstance(n, ast.For) and isinstance(n.iter, ast.GeneratorExp) and len(n.iter.generators) == 1:
+                for cond in n.iter.generators[0].ifs:
+                    if isinstance(cond, ast.Compare) and len(cond.ops) == 1 and isinstance(cond.ops[0], ast.Eq) and \
+                            isinstance(cond.left, ast.Attribute) and cond.left.attr == 'topRank' and \
+                            isinstance(cond.comparators[0], ast.Attribute) and cond.comparators[0].attr == 'cid':
+                        return cond.comparators[0].value
+            n = pm.get(id(n))
+        return None
+
+    def pre_store(ov, attr, v, st, fr, node):
+        """site obligations at every assignment to a ballot's weight inside the Gregory-family rules (C06, C02):
+        the value never increases and stays >= 0; in a surplus sweep it is never more than old x surplus / tally and
+        falls short of it by less than one unit per truncation"""
+        caller = ex.cur_func.qualname if ex.cur_func is not None else ''
+        if attr != 'weight' or not isinstance(ov, SRef) or ov.cname != BALLOT or getattr(ex, 'muted', 0):
+            return
+        if not caller.startswith(WIGM_MODULES) or ex.instance == 'guarded' or not isinstance(v, SVal):
+            return
+        from .arith import SCALE, scale_facts
+        line = getattr(node, 'lineno', 0)
+        old = C.read_field(st, ov, 'weight').t
+        new = v.t
+        k = C.site_anchor_n(caller, 'weight-store', line)
+        asm = C.assumptions(st)
+        ex.col.add('PRE', ['C06'], caller, 'weight@%d:range' % k, 'a ballot value never increases and never becomes negative',
+                   asm, z3.And(new >= 0, new <= old))
+        X = enclosing_surplus_sweep(fr, node)
+        if X is None:
+            return
+        outs = ex.ev(X, st.fork(), fr)
+        if len(outs) != 1 or outs[0].kind != 'ok' or not isinstance(outs[0].val, (SRef, SOpt)):
+            return
+        hc = outs[0].val.inner if isinstance(outs[0].val, SOpt) else outs[0].val
+        varr = C.heap_array(st, CAND, 'vote', 'val')
+        tally = z3.Select(varr, hc.t)
+        q = C.read_field(st, SRef(repo.resolve(ELEC), THE_E), 'quota').t
+        surplus = tally - q
+        ex.col.add('PRE', ['C06', 'C02'], caller, 'weight@%d:never-up' % k,
+                   'the new ballot value is never more than old value x surplus / tally (rounded down, never up)',
+                   asm, new * tally <= old * surplus)
+        if ex.instance == 'real':
+            ex.col.add('PRE', ['C06', 'C02'], caller, 'weight@%d:exact' % k, 'under exact arithmetic the new value is exactly old x surplus / tally',
+                       asm, new * tally == old * surplus)
+        else:
+            scale_facts(st, ex)
+            ex.col.add('PRE', ['C06', 'C02'], caller, 'weight@%d:loss' % k,
+                       'the new value falls short of old x surplus / tally by less than one unit per truncation (two truncations)',
+                       asm, old * surplus - new * tally < tally + SCALE)
+    ex.hooks['pre_store'] = pre_store
 
     def pre_call(info, env, st, fr, node):
         q = info.qualname
